@@ -100,6 +100,10 @@ GENERIC_NAME = {"List": "List", "Set": "Set", "Dict": "Dict", "DefaultDict": "De
 def uses_c(t):
     """Concrete twin of T-IMPORTS uses(t, m, n): the set of (module, name) pairs the rendered annotation needs."""
     k = spec_c.kind(t)
+    if t is type(NotImplemented):
+        return {("types", "NotImplementedType")}
+    if t is type(type.__dict__):
+        return {("types", "MappingProxyType")}
     if not (isinstance(t, type) or t is Any or k in GENERIC_NAME) or getattr(t, "__module__", None) == "builtins":
         return set()
     if t is Any:
@@ -159,7 +163,7 @@ def run(ctx):
         importlib.invalidate_caches()
         zz, pzz, foo, barfoo, target = (importlib.import_module(n) for n in ("zz11", "pkg11.zz11", "foo11", "barfoo11", "target11"))
         myt = importlib.import_module("mytyping11")
-        leaves = [myt.Foo, myt.NoneTypeish, int, str, NoneType, Any, zz.B, zz.B.Nested, zz.zz11, pzz.B, pzz.C, foo.Baz, foo.foo11, foo.foo11.Inner, barfoo.Baz, target.Own, target.Own.Deep, io.StringIO]
+        leaves = [type(NotImplemented), type(type.__dict__), myt.Foo, myt.NoneTypeish, int, str, NoneType, Any, zz.B, zz.B.Nested, zz.zz11, pzz.B, pzz.C, foo.Baz, foo.foo11, foo.foo11.Inner, barfoo.Baz, target.Own, target.Own.Deep, io.StringIO]
         types = list(leaves)
         for a in leaves:
             types += [List[a], Optional[a] if a not in (NoneType, Any) else List[a], Dict[str, a], Tuple[a, int], Type[a] if isinstance(a, type) and a is not NoneType else Set[a], Iterator[a]]
